@@ -38,7 +38,7 @@ def check(tier):
     binp = lib.build("priv")
     v = lib.Verdict("C39")
     quick = tier == "quick"
-    with lib.Scratch() as sc, concurrent.futures.ThreadPoolExecutor(max_workers=3) as pool:
+    with lib.Scratch() as sc, concurrent.futures.ThreadPoolExecutor(max_workers=4) as pool:
         # 1. in the background: the model itself (bounded exhaustive, invariants + action properties)
         #    and the exhaustive transition dump of the small vocabulary
         mc_cfg = "Privileges_mc.cfg" if quick else "Privileges_mc4.cfg"
@@ -50,6 +50,9 @@ def check(tier):
         #     (an account and a role granted to it both hold table-level privileges there)
         nov, dov = (12, 6) if quick else (120, 8)
         ovsim = pool.submit(pc.simulate, "Privileges_simov.cfg", nov, dov, lib.seed() + 500)
+        #     and every transition out of the states with such an overlap (role granted to the user or not yet)
+        ovdump = pool.submit(lib.dump_transitions, "Privileges", "Privileges_dumpov.cfg", os.path.join(sc, "dumpov.ndjson"),
+                             workers=2, timeout=900)
         # 2. simulated histories of the bounded vocabulary, probe matrix after every step
         sim_cfg, nsim, depth = ("Privileges_simq.cfg", 30, 8) if quick else ("Privileges_sim.cfg", 300, 12)
         rs, strs = pc.simulate(sim_cfg, nsim, depth, lib.seed())
@@ -61,17 +64,28 @@ def check(tier):
         rd, dtrs = dump.result()
         if len(dtrs) < 2000:
             raise lib.Inconclusive("too few transitions dumped: %d" % len(dtrs))
-        # stratified: transitions INTO a table-overlap state (as marked by the specification), an equal share of
-        # every action kind, and a uniform sample of the rest
-        ndump = 200 if quick else 3000
-        into = [t for t in dtrs if t["ov"]["post"] and not t["ov"]["pre"]]
-        dsel = lib.sample(into, ndump // 5, rnd)
+        # stratified: an equal share of every action kind and a uniform sample of the rest, plus the
+        # transitions around the table overlap (Privileges_dumpov.cfg; strata = action kind x the specification's
+        # mark of the pre / post state; where pre is marked the replayer runs a probe matrix BEFORE the step too)
+        ndump = 170 if quick else 3000
         by_act = {}
         for t in dtrs:
             by_act.setdefault(t["act"]["name"], []).append(t)
+        dsel = []
         for name in sorted(by_act):
             dsel += lib.sample(by_act[name], max(1, (3 * ndump // 10) // len(by_act)), rnd)
         dsel += lib.sample(dtrs, ndump - len(dsel), rnd)
+        rov, ovtrs = ovdump.result()
+        strata = {}
+        for t in ovtrs:
+            strata.setdefault((t["act"]["name"], t["ov"]["pre"], t["ov"]["post"]), []).append(t)
+        nov_tr = 40 if quick else 1500
+        osel = []
+        for k in sorted(strata):
+            osel += lib.sample(strata[k], -(-nov_tr // len(strata)), rnd)
+        if len(ovtrs) < 1000 or len(strata) < 10:
+            raise lib.Inconclusive("too few transitions around the table overlap: %d in %d strata" % (len(ovtrs), len(strata)))
+        dsel += osel
         drep = b.add("dump", dsel, pc.SMALL, rmode="transitions", matrix="every")
         lib.log("[C39] replay dump: %s %.0fs" % (drep["extra"], time.time() - t0))
         ro, otrs = ovsim.result()
@@ -112,7 +126,7 @@ def check(tier):
         if rows < 5000 or allowed < rows // 50 or nontrivial < 50:
             raise lib.Inconclusive("vacuous: %d probe rows, %d expected-allowed, %d user-distinguishing probes" % (rows, allowed, nontrivial))
         overlap_steps = orep["extra"]["steps_into_table_overlap"] + srep["extra"]["steps_into_table_overlap"]
-        overlap_trans = drep["extra"]["steps_into_table_overlap"]
+        overlap_trans = sum(1 for t in osel if t["ov"]["pre"] or t["ov"]["post"])
         if overlap_steps < 3 or overlap_trans < 10:
             raise lib.Inconclusive("vacuous: %d simulated steps and %d replayed transitions with an account and its role holding table privileges on one table" % (overlap_steps, overlap_trans))
         rc = v.finish()
@@ -131,7 +145,8 @@ def check(tier):
                                        "by_action": erep["extra"]["by_action"]},
             "transition_dump": {"config": "Privileges_dump.cfg", "states": rd.distinct, "transitions": len(dtrs),
                                 "replayed": len(dsel), "by_action": drep["extra"]["by_action"],
-                                "into_table_overlap_available": len(into), "into_table_overlap_replayed": overlap_trans},
+                                "around_table_overlap": {"config": "Privileges_dumpov.cfg", "transitions": len(ovtrs), "strata": len(strata),
+                                                         "replayed": len(osel), "of_them_from_or_into_overlap": overlap_trans}},
             "table_overlap_histories": {"config": "Privileges_simov.cfg", "histories": orep["extra"]["histories"], "depth": dov,
                                         "steps": orep["cases"], "steps_in_table_overlap": orep["extra"]["steps_into_table_overlap"],
                                         "by_action": orep["extra"]["by_action"]},
